@@ -192,6 +192,11 @@ class Judge(object):
                 return False, "loop over an expression with effects"
             for x in ast.walk(st.target):
                 if isinstance(x, ast.Name):
+                    # the loop variable must be the loop's own: re-binding a name that the function reads again after the
+                    # loop makes what that later code sees depend on the documentation option
+                    later = self.read_after(st, x.id)
+                    if later is not None and self.bound_before(st, x.id):
+                        return False, "the comment loop re-binds %r, which line %d reads afterwards" % (x.id, later)
                     locals_ok.add(x.id)
             for b in st.body:
                 ok, why = self.stmt_comment_only(b, locals_ok)
@@ -284,6 +289,46 @@ class Judge(object):
             if sites and good:
                 out.add(pn)
         return out
+
+    def _func_of(self, node):
+        cur = node
+        while id(cur) in self.parents:
+            cur = self.parents[id(cur)]
+            if isinstance(cur, ast.FunctionDef):
+                return cur
+        return None
+
+    def bound_before(self, loop, name):
+        f = self._func_of(loop)
+        if f is None:
+            return False
+        if name in [a.arg for a in f.args.args]:
+            return True
+        for n in ast.walk(f):
+            if getattr(n, "lineno", 10 ** 9) < loop.lineno:
+                if isinstance(n, ast.Name) and n.id == name and isinstance(n.ctx, ast.Store):
+                    return True
+        return False
+
+    def read_after(self, loop, name):
+        """line of a read of `name` after the loop (not preceded by a new binding on every path is not analysed: any
+        later read counts unless an unconditional re-binding at function level comes first)"""
+        f = self._func_of(loop)
+        if f is None:
+            return None
+        end = loop.end_lineno
+        rebinding = [st.lineno for st in f.body if st.lineno > end and isinstance(st, (ast.Assign, ast.For)) and any(
+            isinstance(x, ast.Name) and x.id == name and isinstance(x.ctx, ast.Store) for x in ast.walk(st.targets[0] if isinstance(st, ast.Assign) else st.target))]
+        stop = min(rebinding) if rebinding else 10 ** 9
+        # reads inside another documentation-guarded region (its test included) only steer comments: judged there
+        guarded = set()
+        for n in ast.walk(f):
+            if isinstance(n, ast.If) and self.test_is_option(n.test, getattr(self, "tainted", set())):
+                for x in ast.walk(n):
+                    guarded.add(id(x))
+        reads = sorted(n.lineno for n in ast.walk(f) if isinstance(n, ast.Name) and n.id == name and isinstance(n.ctx, ast.Load)
+                       and end < n.lineno < stop and id(n) not in guarded)
+        return reads[0] if reads else None
 
     def loop_is_documentation_only(self, loop, locals_ok):
         def flag_only(b):
